@@ -51,26 +51,35 @@ the guarded wake-up (``aloop._wake``) all boundaries of that program are
 clean.  SQLAlchemy itself terminates (closes) the connection whose reset was
 interrupted, which rolls the transaction back.
 
-Findings on the unchanged tree (both have proposed patches under /verif/proposed_fixes):
-  F1 ``cancel [pool new-connection-init] -> 1 driver connection(s) open ...``: a cancellation that arrives while the pool
-     runs the connect / first_connect handlers of a *new* connection (dialect on_connect, dialect initialisation) drops the
-     driver connection without close()/terminate() (`_ConnectionRecord.__connect`); an asyncio driver connection cannot be
-     cleaned up by gc (aiosqlite: worker thread + sqlite handle stay behind).
-  F2 ``cancel [pool checked-out, <scope> scope, program in step|exit] -> ... given back only when the cyclic garbage
-     collector runs``: when the reset-on-return of a connection is interrupted by CancelledError (any release that is not
-     shielded: ``await conn.close()``, ``session.commit()/rollback()/close()``, leaving ``async with session.begin()``),
-     `_finalize_fairy` invalidates the record and re-raises *before* ``connection_record.checkin()``: the pool slot stays
-     checked out until the fairy is garbage collected (pool of size 1: the next checkout waits for the pool timeout).
+Findings:
+  F1 (open; patch in /verif/proposed_fixes/c29_connect_event_cancel_leak.diff)
+     ``cancel [pool new-connection-init] -> 1 driver connection(s) open but only 0 idle in the pool``: a cancellation that
+     arrives while the pool runs the connect / first_connect handlers of a *new* connection (dialect on_connect, dialect
+     initialisation) drops the driver connection without close()/terminate() (`_ConnectionRecord.__connect`); an asyncio
+     driver connection cannot be cleaned up by gc (aiosqlite: worker thread + sqlite handle stay behind).
+  F2 (found here on e26212a..c263b58, repaired in /repo by 053d3d7 "an exit exception during reset-on-return still checks
+     the record back in"): ``cancel [pool checked-out, <scope> scope, program in step|exit] -> pool.checkedout()=1 after
+     unwinding; the pool slot is given back only when the cyclic garbage collector runs`` -- when the reset-on-return of a
+     connection was interrupted by CancelledError in a release that is not shielded (``await conn.close()``,
+     ``session.commit()/rollback()/close()``, leaving ``async with session.begin()``), `_finalize_fairy` invalidated the
+     record and re-raised *before* ``connection_record.checkin()``.  The check is silent on this since 053d3d7.
+  Observation (not a violation of the statement): cancelling ``await session.close()`` inside ``async with
+  session.begin()`` makes the block's exit raise AssertionError (``assert stx is not None`` in Session.rollback) instead of
+  CancelledError; connections and transactions are still cleaned up.
 
-Mutations caught (each a VIOLATION with a signature that is not one of the above):
-  M1 ext/asyncio/engine.py AsyncConnection.__aexit__: ``await asyncio.shield(task)`` -> ``await self.close()``
-  M2 util/concurrency.py greenlet_spawn: ``except BaseException`` -> ``except Exception`` (CancelledError not thrown into the greenlet)
-  M3 pool/base.py _finalize_fairy: drop ``connection_record.invalidate(e=e)`` on an interrupted reset
-  M4 ext/asyncio/session.py AsyncSession.get: ``populate_existing`` no longer passed on (proxy drops an argument)
-  M6 ext/asyncio/session.py AsyncSession.__aexit__: shield removed
-  M7 ext/asyncio/engine.py AsyncTransaction.rollback proxies to commit
-  (not caught, and not reachable by a single injection: AsyncAdapt_terminate.terminate swallowing the CancelledError of a
-  *second* cancellation during the graceful close)
+Mutations caught (each a VIOLATION with a signature other than F1's; verified on /repo at 053d3d7):
+  M2 util/concurrency.py greenlet_spawn: ``except BaseException`` -> ``except Exception`` (CancelledError not thrown into the
+     greenlet) -> open transaction / checkedout()=1 / leaked driver connection
+  M3 pool/base.py _finalize_fairy: no ``connection_record.invalidate(e=e)`` on an interrupted reset -> the half-reset
+     connection goes back to the pool, the following program fails
+  M4 ext/asyncio/session.py AsyncSession.get: ``populate_existing`` no longer passed on (proxy drops an argument) ->
+     ``equiv session scope, op get -> sync (1, 111), async (1, 11)``
+  M7 ext/asyncio/engine.py AsyncTransaction.rollback proxies to commit -> final database differs
+  M1 / M6 (``asyncio.shield`` removed from AsyncConnection.__aexit__ / AsyncSession.__aexit__) were caught through the F2
+  reading before 053d3d7; with that repair an interrupted, unshielded close invalidates and checks in the connection, the
+  property holds, and they are (correctly) no longer reported.
+  Not reachable by a single injection: AsyncAdapt_terminate.terminate swallowing the CancelledError of a *second*
+  cancellation during the graceful close.
 """
 import gc
 import itertools
